@@ -37,7 +37,7 @@ def build_bundle(desc):
         "latter_map": shuffled_map(dsw.accessor_to_latter_map(accessor), desc.get("map_order")),
         "filter": gens.build_local_filter(desc["filter"]),
         "strand": desc["strand"], "corrupted": desc["corrupted"], "number": desc["number"],
-        "matrix": None,
+        "matrix": None, "motifs": list(desc.get("motifs") or ["GCC", "AAT"]), "gc_range": [0.25, 0.75],
     }
     if graph["k"] <= 3:
         matrix = numpy.zeros((4 ** graph["k"], 4 ** graph["k"]), dtype=int)
@@ -137,6 +137,10 @@ def call(op, bundle):
         pruned = dsw.remove_useless(latter_map=bundle["latter_map"], threshold=op["threshold"])
         rebuilt = dsw.latter_map_to_accessor(latter_map=pruned, observed_length=k)
         return dsw.remove_nasty_arc(accessor=rebuilt, latter_map=pruned)[2]
+    if f == "construct_filter":
+        built = dsw.LocalBioFilter(observed_length=max(k, 3), max_homopolymer_runs=op["run"],
+                                   gc_range=bundle["gc_range"], undesired_motifs=bundle["motifs"])
+        return [built.valid(bundle["strand"], only_last=False), built.valid("ACGTTGCA" + bundle["strand"])]
     if f == "calculus":
         function = {"add": dsw.calculus_addition, "sub": dsw.calculus_subtraction,
                     "mul": dsw.calculus_multiplication, "div": dsw.calculus_division}[op["op"]]
